@@ -10,6 +10,7 @@ import S4V.Model.Time
 import S4V.Model.Syslines
 import S4V.Model.Gate
 import S4V.Model.SortDrain
+import S4V.Drv.Journal
 
 open S4V.Model S4V.Model.Wire
 
@@ -183,6 +184,7 @@ def step (line : String) : String :=
   | "sysl" :: rest => stepSysl rest
   | "gate" :: rest => stepGate rest
   | "sort" :: rest => stepSort rest
+  | "jrn" :: rest => S4V.Drv.stepJournal rest
   | _ => "bad-op"
 
 partial def loop (h : IO.FS.Stream) (out : IO.FS.Stream) : IO Unit := do
